@@ -74,7 +74,7 @@ CHECKS = {
     ),
     "C01": dict(
         category="other",
-        text="Decided from the current source: every expression in the five wavefunction writers that combines the (permutation, signs) pair of convert_conventions (contract proved in C10) is evaluated by numpy on matrices of sympy symbols for all 24 x 16 permutations and sign vectors of size 4 and must equal rows_i = s_i coeffs[p_i] (orbitals) resp. D'_ij = s_i s_j D[p_i,p_j] (FCHK densities) exactly - complete for n = 4 and all coefficient values, other sizes by parametricity of numpy indexing (assumption); the basis handed to get_mocoeff_scales in the WFN/WFX writers carries the conventions the coefficients were converted to (AST contract). Bounded: the real fchk.prepare_dump is run on every occupation pattern with <= 5 orbitals and must accept only what FCHK can express; bounded/wfn_probe.py writes random wavefunctions (shell order, conventions incl. every format module's and random permutations with sign flips, segmented / SP / generalized contractions, restricted / ROHF / occs_aminusb / unrestricted, with and without virtuals, ghost and ECP centres, pure / Cartesian / mixed) with every writer and allow_changes setting, reloads them and compares nuclei, occupations, energies, spin, orbital values at probe points and FCHK densities with an evaluator independent of iodata; failing cases are minimised feature by feature. Reader-side reconstruction is only covered by the bounded part, hence `other`. Five genuine defects were repaired (see known_findings.json), five groups are open known findings (Molekel with ECP / ghost / ROHF, WFN core charges).",
+        text="Decided from the current source: every expression in the five wavefunction writers that combines the (permutation, signs) pair of convert_conventions (contract proved in C10) is evaluated by numpy on matrices of sympy symbols for all 24 x 16 permutations and sign vectors of size 4 and must equal rows_i = s_i coeffs[p_i] (orbitals) resp. D'_ij = s_i s_j D[p_i,p_j] (FCHK densities) exactly - complete for n = 4 and all coefficient values, other sizes by parametricity of numpy indexing (assumption); the basis handed to get_mocoeff_scales in the WFN/WFX writers carries the conventions the coefficients were converted to (AST contract). fchk.prepare_dump is executed symbolically for orbitals of any size and any occupation numbers (restricted with and without occs_aminusb, unrestricted; sum and rounding abstracted as arbitrary functions): whatever it accepts has alpha and beta occupations 1...1 0...0 and no more beta than alpha electrons, and only PrepareDumpError is raised (cross-checked by an exhaustive run on every occupation pattern with <= 5 orbitals, bounded). Bounded: bounded/wfn_probe.py writes random wavefunctions (shell order, conventions incl. every format module's and random permutations with sign flips, segmented / SP / generalized contractions, restricted / ROHF / occs_aminusb / unrestricted, with and without virtuals, ghost and ECP centres, pure / Cartesian / mixed) with every writer and allow_changes setting, reloads them and compares nuclei, occupations, energies, spin, orbital values at probe points and FCHK densities with an evaluator independent of iodata; failing cases are minimised feature by feature. Reader-side reconstruction is only covered by the bounded part, hence `other`. Five genuine defects were repaired (see known_findings.json), five groups are open known findings (Molekel with ECP / ghost / ROHF, WFN core charges).",
         design_ref="DESIGN.md 6/C01",
         note="trusted: numpy parametricity in n, contracts of C10/C14/C06, bounded/overlap_oracle.py as definition of the basis functions; command-line path not exercised separately",
         technique="use-site contracts for the convention conversion decided by exhaustive symbolic evaluation (numpy + sympy, n = 4), AST contract for normalisation scales, small-scope exhaustive guard check, randomised conversion probe with an independent orbital evaluator (bounded)",
@@ -109,7 +109,7 @@ CHECKS = {
     ),
     "C05": dict(
         category="other",
-        text="Proved on every path of the real molden._fix_molden_from_buggy_codes (symbolic execution with z3, orbital coefficients arbitrary real matrices of arbitrary size, restricted / unrestricted / generalized orbitals, the norm test an arbitrary predicate, the _fix_* helpers arbitrary functions that may return None where the code allows it): a file that passes the norm test as it stands is returned untouched without warning after one test; whatever is returned (basis, alpha and beta coefficients, read back through the real MolecularOrbitals getters) is exactly the candidate of the last test and that test succeeded after all earlier ones failed; every test examines both spin blocks of one candidate; candidates are tried in the documented order; an accepted correction is announced by exactly one LoadWarning naming it; LoadError is raised only after every candidate failed and before anything was modified; generalized orbitals are rejected. Bounded: the real _is_normalized_properly with an identity overlap sees every alpha and beta column (every position, <= 3+3 orbitals, thresholds 1e-6..1e-2); bounded/vendor_probe.py encodes true wavefunctions the way ORCA, PSI4 <= 1.0, Turbomole, CFOUR 2.1, PSI4 <= 1.3.2 and unnormalised contractions deviate, as Molden (AU and Angs) and Molekel, and compares what iodata loads with the truth by an independent evaluator, incl. geometry scans in one process and corrupted encodings that must be rejected. The numerical correction factors and the selection of the right branch when several candidates pass are only covered by the bounded part, hence `other`.",
+        text="Proved on every path of the real molden._fix_molden_from_buggy_codes (symbolic execution with z3, orbital coefficients arbitrary real matrices of arbitrary size, restricted / unrestricted / generalized orbitals, the norm test an arbitrary predicate, the _fix_* helpers arbitrary functions that may return None where the code allows it): a file that passes the norm test as it stands is returned untouched without warning after one test; whatever is returned (basis, alpha and beta coefficients, read back through the real MolecularOrbitals getters) is exactly the candidate of the last test and that test succeeded after all earlier ones failed; every test examines both spin blocks of one candidate; candidates are tried in the documented order; an accepted correction is announced by exactly one LoadWarning naming it; LoadError is raised only after every candidate failed and before anything was modified; generalized orbitals are rejected. Also proved (loop invariant over the columns, blocks of any size, the quadratic form an uninterpreted function): _is_normalized_properly returns True iff every column of the alpha block and, when given, of the beta block has |c^T S c - 1| <= threshold (cross-checked natively with an identity overlap, bounded). Bounded: bounded/vendor_probe.py encodes true wavefunctions the way ORCA, PSI4 <= 1.0, Turbomole, CFOUR 2.1, PSI4 <= 1.3.2 and unnormalised contractions deviate, as Molden (AU and Angs) and Molekel, and compares what iodata loads with the truth by an independent evaluator, incl. geometry scans in one process and corrupted encodings that must be rejected. The numerical correction factors and the selection of the right branch when several candidates pass are only covered by the bounded part, hence `other`.",
         design_ref="DESIGN.md 6/C05",
         note="trusted: callee contracts of the cascade (purity of the norm test, _fix_* helpers return new objects), C12 (coeffsa/coeffsb views), vendor encodings typed from the documentation of the deviations",
         technique="contract-based deductive verification of the correction cascade (AST symbolic execution -> z3, callees under contract) + bounded norm-test and vendor-encoding probes with an independent orbital evaluator",
